@@ -218,13 +218,15 @@ def cases(tier):
     T1b = trees.tree_family(3, 4, -3.0, 6.0)
     # an interval far from the origin and strongly graded chains (mesh width tiny relative to the coordinates / to comparison tolerances)
     T1c = trees.tree_family(3, 4, 1048576.0, 1048577.0) + trees.graded_chains(9 if q else 12, 1000.0, 1001.0, start=5)
-    T1d = trees.graded_chains(12 if q else 20, 0.0, 1.0, fractions=(0.0, 1.0 / 3.0), start=8)
+    T1d = trees.graded_chains(12 if q else 16, 0.0, 1.0, fractions=(0.0, 1.0 / 3.0), start=8)
     for kind in KINDS:
         for bd in (True, False):
             for (a, b, T) in ((0.0, 1.0, T1), (-3.0, 6.0, T1b), (None, None, T1c), (0.0, 1.0, T1d)):
                 for t in T:
                     if not bd and len(t[0]) < 3:
                         continue
+                    if kind[1] >= 5 and T is T1d and len(t[0]) > 14:
+                        continue        # degree-5 bases on knot ratios beyond 2^12: the collocation systems are too ill conditioned for a 1e-9 oracle
                     aa, bb = (t[0][0], t[0][-1]) if a is None else (a, b)
                     out.append({"config": {"kind": "global", "basis": list(kind), "boundary": bd, "a": [aa], "b": [bb], "trees": [list(t)]}})
             if kind[1] <= 3:
